@@ -137,4 +137,36 @@ theorem append_view {c d c' : Cfg} (hw : WF c) (hd : WF d) (h : CfgEdit.append c
       · simp at h
     · simp at h
 
+/-- the entry→exit language of a successful `append` (restated as `append_paths` in Props/C15.lean) -/
+theorem append_langEE {c d c' : Cfg} (hw : WF c) (hd : WF d) (h : CfgEdit.append c d = ⟨c', .ok ()⟩) (w : List Sym) :
+    LangEE c' w ↔ if c.blocks = [] then LangEE d w else ∃ u v, w = u ++ v ∧ LangEE c u ∧ LangEE d v := by
+  obtain ⟨f, den, dex, A⟩ := append_view hw hd h
+  have G := A.glue
+  by_cases hemp : c.blocks = []
+  · simp only [hemp, if_true]
+    obtain ⟨hen, _⟩ := A.empty hemp
+    constructor
+    · rintro ⟨en, ex, h1, h2, hwalk⟩
+      rw [hen] at h1; rw [A.exit] at h2
+      cases h1; cases h2
+      exact ⟨den, dex, A.dentry, A.dexit, (langEE_copy G A.dentry A.dexit w).mp hwalk⟩
+    · rintro ⟨en, ex, h1, h2, hwalk⟩
+      rw [A.dentry] at h1; rw [A.dexit] at h2
+      cases h1; cases h2
+      exact ⟨_, _, hen, A.exit, (langEE_copy G A.dentry A.dexit w).mpr hwalk⟩
+  · simp only [hemp, if_false]
+    obtain ⟨cen, cex, hcen, hcex, hen', T⟩ := A.nonempty hemp
+    obtain ⟨bx, hbx, hbxi⟩ := (hasBlock_iff d _).mp (hd.exitOk dex A.dexit)
+    constructor
+    · rintro ⟨en, ex, h1, h2, hwalk⟩
+      rw [hen'] at h1; rw [A.exit] at h2
+      cases h1; cases h2
+      obtain ⟨u, v, rfl, hu, hv⟩ := walk_split G T hwalk (old_index_lt hw (hw.entryOk _ hcen))
+        (by rw [← hbxi]; exact G.fresh bx hbx)
+      exact ⟨u, v, rfl, ⟨cen, cex, hcen, hcex, hu⟩, ⟨den, dex, A.dentry, A.dexit, (langEE_copy G A.dentry A.dexit v).mp hv⟩⟩
+    · rintro ⟨u, v, rfl, ⟨en1, ex1, h1, h2, hu⟩, ⟨en2, ex2, h3, h4, hv⟩⟩
+      rw [hcen] at h1; rw [hcex] at h2; rw [A.dentry] at h3; rw [A.dexit] at h4
+      cases h1; cases h2; cases h3; cases h4
+      exact ⟨cen, _, hen', A.exit, walk_join G T hu (walk_copy G hv)⟩
+
 end Falcon.C15
